@@ -30,7 +30,15 @@ Rust function (file under /repo/router/src/matching unless said otherwise) ↦ m
   of the path insignificant)
 
 The code is modelled as it is, defects included (a static segment stops when its own characters
-run out; param segments swallow one non-`/` character; byte slices inside a multi-byte character).
+run out; param segments swallow one non-`/` character; byte slices inside a multi-byte character;
+the optional-parent fallback with its `unwrap`).
+
+`Seg.test`, `passFields`, `matchNested`, `matchChildren`, `stripBase`, `matchRoute` take a flag `k`:
+`k = false` is the Rust code; `k = true` is the *segment-aligned variant* (an atom is only tested at
+the end of the path or in front of a `/`; the base is one aligned static prefix).  The variant exists
+only to state the decidable input class `SegmentAligned d path := matchRoute false d path =
+matchRoute true d path`.  The last section (`judge`, `Kind`, `Class`, `classify`) is the property's
+oracle and the known-finding classes, shared by the driver and the theorems.
 -/
 namespace Leptos.Router
 
